@@ -4,6 +4,7 @@ import (
 	"database/sql"
 	"errors"
 	"syscall"
+	"time"
 	"encoding/json"
 	"fmt"
 	"io"
@@ -126,6 +127,9 @@ func ReadLog(s ref.Store, name string) (log [][2]int, ok bool, err error) {
 // curDB is the database of the SQL store under replay (fault injection inside the store).
 var curDB *sql.DB
 
+// skew counts the logged sets whose timestamp was moved back.
+var skew int
+
 // Apply executes one abstract operation on the real store.
 func Apply(s ref.Store, o Op) RealRet {
 	switch o.Name {
@@ -134,6 +138,18 @@ func Apply(s ref.Store, o Op) RealRet {
 		return RealRet{Ok: err == nil, Err: errStr(err)}
 	case "setlog":
 		err := ref.SaveRef(s, o.N, Sum(o.V), "verif", "verif@example.invalid", "commit", "m", nil)
+		if err == nil && curDB != nil {
+			// a clock that was set back, entries written in other time zones: the timestamp the store keeps
+			// with the entry just written is moved to an EARLIER instant than all before it (logs read
+			// newest-first by the order of the sets, whatever their timestamps say)
+			skew++
+			zone := time.UTC
+			if skew%2 == 1 {
+				zone = time.FixedZone("", -5*3600)
+			}
+			tm := time.Date(2021, 6, 1, 12, 0, 0, 0, time.UTC).Add(-time.Duration(skew) * time.Hour).In(zone)
+			curDB.Exec(`UPDATE reflogs SET time = ? WHERE ref = ? AND ordinal = (SELECT MAX(ordinal) FROM reflogs WHERE ref = ?)`, tm, o.N, o.N)
+		}
 		return RealRet{Ok: err == nil, Err: errStr(err)}
 	case "setlogf":
 		// the store's own write of the log record is made to fail (an SQL trigger aborts the insert):
